@@ -466,6 +466,66 @@ fn tab_faults(call: &TabCall, n_cols: usize, rng: &mut Rng) -> Vec<(String, TabC
     out
 }
 
+fn honest_tab_call(rng: &mut Rng, n_cols: usize, height: u32, n_friendly: u64, queries: &[u64]) -> TabCall {
+    let rows: Vec<Vec<Felt>> = (0..1usize << height).map(|_| distinct_felts(rng, n_cols)).collect();
+    let tab = RefTable::build(rows, n_friendly);
+    let (values, auth) = tab.open(queries);
+    TabCall {
+        n_columns: Felt::from(n_cols as u64),
+        height: height as u64,
+        n_friendly,
+        root: tab.root(),
+        queries: queries.iter().map(|q| Felt::from(*q)).collect(),
+        values,
+        auth,
+    }
+}
+
+/// Shape shrinking for C05: fewest columns / smallest height / fewest queries on which the same
+/// fault kind is still accepted (kind = None: the honest table is still rejected).
+fn shrink_tab(seed: u64, n_cols: usize, height: u32, n_friendly: u64, kind: Option<&str>) -> Option<(TabCall, String, String)> {
+    let mut col_opts = vec![1usize, 2, 3];
+    if !col_opts.contains(&n_cols) {
+        col_opts.push(n_cols);
+    }
+    for cols in col_opts {
+        if cols > n_cols {
+            continue;
+        }
+        for h in 0..=height {
+            let n = 1u64 << h;
+            let mut shapes: Vec<Vec<u64>> = vec![vec![0]];
+            if n >= 2 {
+                shapes.push(vec![0, n - 1]);
+                shapes.push(vec![0, 1]);
+            }
+            if n >= 4 {
+                shapes.push(vec![0, 1, 2]);
+            }
+            let nfs: Vec<u64> = if n_friendly > height as u64 + 1 { vec![n_friendly] } else { vec![n_friendly.min(h as u64 + 1), n_friendly] };
+            for nf in nfs {
+                for q in &shapes {
+                    let mut rng = Rng::new(seed ^ (cols as u64) << 16 ^ (h as u64) << 8 ^ q.len() as u64);
+                    let call = honest_tab_call(&mut rng, cols, h, nf, q);
+                    let ok = call.run().is_accept();
+                    match kind {
+                        None if !ok => return Some((call, "none".into(), format!("columns {cols}, height {h}, friendly {nf}, queries {q:?}"))),
+                        Some(k) if ok => {
+                            for (name, f) in tab_faults(&call, cols, &mut rng) {
+                                if fault_kind(&name) == k && f.run().is_accept() {
+                                    return Some((f, name, format!("columns {cols}, height {h}, friendly {nf}, queries {q:?}")));
+                                }
+                            }
+                        }
+                        _ => {}
+                    }
+                }
+            }
+        }
+    }
+    None
+}
+
 pub fn c05(ctx: &mut Ctx) {
     let scenario = "core.c05";
     for p in ["table.single-column", "table.row-layer-friendly-exactly", "table.row-layer-masked-tree-friendly", "queries.single", "queries.all", "queries.adjacent-siblings"] {
@@ -517,8 +577,21 @@ pub fn c05(ctx: &mut Ctx) {
         ctx.stats.state(format!("{sc}|none|{}", o.class()));
         if !o.is_accept() {
             let class = format!("C05|honest-rejected|{}", o.class());
-            let rep = replay_envelope("C05", scenario, &ctx.variant, json!({"call": "table_decommit", "args": call.to_json(), "expect": "ok", "expected_outcome": o.describe()}));
-            ctx.violation(&class, &format!("honest table decommitment rejected: columns {n_cols}, height {height}, friendly {n_friendly}, queries {queries:?}: {}", o.describe()), rep);
+            if ctx.seen_class(&class) {
+                ctx.violation(&class, "", Value::Null);
+                continue;
+            }
+            match shrink_tab(ctx.seed ^ k, n_cols, height, n_friendly, None) {
+                Some((c2, _, where2)) => {
+                    let o2 = c2.run();
+                    let rep = replay_envelope("C05", scenario, &ctx.variant, json!({"call": "table_decommit", "args": c2.to_json(), "expect": "ok", "expected_outcome": o2.describe()}));
+                    ctx.violation(&class, &format!("honest table decommitment rejected: {where2}: {} (minimised from columns {n_cols}, height {height}, {} queries)", o2.describe(), queries.len()), rep);
+                }
+                None => {
+                    let rep = replay_envelope("C05", scenario, &ctx.variant, json!({"call": "table_decommit", "args": call.to_json(), "expect": "ok", "expected_outcome": o.describe()}));
+                    ctx.violation(&class, &format!("honest table decommitment rejected: columns {n_cols}, height {height}, friendly {n_friendly}, queries {queries:?}: {}", o.describe()), rep);
+                }
+            }
             continue;
         }
         if ctx.stats.samples.len() < 3 {
@@ -532,8 +605,21 @@ pub fn c05(ctx: &mut Ctx) {
             ctx.stats.state(format!("{sc}|{kind}|{}", o.class()));
             if o.is_accept() {
                 let class = format!("C05|fault-accepted|{kind}");
-                let rep = replay_envelope("C05", scenario, &ctx.variant, json!({"call": "table_decommit", "args": faulted.to_json(), "expect": "not_ok", "fault": name, "expected_outcome": o.describe()}));
-                ctx.violation(&class, &format!("fault {name} accepted: columns {n_cols}, height {height}, friendly {n_friendly}, queries {queries:?}"), rep);
+                if ctx.seen_class(&class) {
+                    ctx.violation(&class, "", Value::Null);
+                    continue;
+                }
+                match shrink_tab(ctx.seed ^ k, n_cols, height, n_friendly, Some(&kind)) {
+                    Some((f2, name2, where2)) => {
+                        let o2 = f2.run();
+                        let rep = replay_envelope("C05", scenario, &ctx.variant, json!({"call": "table_decommit", "args": f2.to_json(), "expect": "not_ok", "fault": name2, "expected_outcome": o2.describe()}));
+                        ctx.violation(&class, &format!("fault {name2} accepted: {where2} (minimised from columns {n_cols}, height {height}, {} queries)", queries.len()), rep);
+                    }
+                    None => {
+                        let rep = replay_envelope("C05", scenario, &ctx.variant, json!({"call": "table_decommit", "args": faulted.to_json(), "expect": "not_ok", "fault": name, "expected_outcome": o.describe()}));
+                        ctx.violation(&class, &format!("fault {name} accepted: columns {n_cols}, height {height}, friendly {n_friendly}, queries {queries:?}"), rep);
+                    }
+                }
             }
         }
     }
